@@ -133,19 +133,29 @@ def check_program(ctx, w, p, how):
 
 
 def _any_tuple(rm, x):
-    if type(x) is tuple:
-        return True
-    if rm.terminal(x):
-        return False
-    return any(_any_tuple(rm, c) for c in rm.children(x))
+    return _contains(rm, x)[0]
 
 
 def _any_list(rm, x):
-    if isinstance(x, list):
-        return True
-    if rm.terminal(x):
-        return False
-    return any(_any_list(rm, c) for c in rm.children(x))
+    return _contains(rm, x)[1]
+
+
+def _contains(rm, x):
+    """(a tuple below or at x, a list below or at x), memoised per object"""
+    memo = rm.__dict__.setdefault("cont_memo", {})
+    k = id(x)
+    hit = memo.get(k)
+    if hit is not None and hit[0] is x:
+        return hit[1]
+    t = type(x) is tuple
+    li = isinstance(x, list)
+    if not rm.terminal(x):
+        for c in rm.children(x):
+            ct, cl = _contains(rm, c)
+            t = t or ct
+            li = li or cl
+    memo[k] = (x, (t, li))
+    return (t, li)
 
 
 def run(ctx):
